@@ -16,8 +16,11 @@ class InvertedBooleanCheckTransformer(LibcstResultTransformer):
         if not self.node_is_selected(original_node):
             return updated_node
 
-        if isinstance(updated_node.operator, cst.Not) and isinstance(
-            (comparison := updated_node.expression), cst.Comparison
+        if (
+            isinstance(updated_node.operator, cst.Not)
+            and isinstance((comparison := updated_node.expression), cst.Comparison)
+            # `not a == b == c` is not `a != b != c`: chained comparisons are left alone
+            and len(comparison.comparisons) == 1
         ):
             return self.report_new_comparison(original_node, comparison)
         return updated_node
